@@ -507,6 +507,87 @@ func c20Release(r *core.Run) {
 	}
 	n := 0
 	live := w.Reach(append(requestRoots(w), initRoots(w)...), nil)
+	onRequest := w.Reach(requestRoots(w), nil)
+	// physical connections opened with driver.Connector.Connect outside the proxy's own Connect/Open: the function
+	// that stores one into a wrapper it returns hands ownership to its caller; callers that pass the wrapper on
+	// by returning it do the same; whoever finally keeps it must release it (ownedRet: function -> what it returns)
+	ownedRet := map[*types.Func]*acqKind{}
+	isConnect := func(f *types.Func) bool { return stdMethod(f, pDriver, "Connector", "Connect") }
+	for _, f := range w.SortedFuncs() {
+		if w.IsTestFile(f.Decl.Pos()) || strings.Contains(f.Pkg.PkgPath, "/mock") || !onRequest[f] || f.Decl.Body == nil {
+			continue
+		}
+		if implementsDriver(w, f.Obj, "Connector") || implementsDriver(w, f.Obj, "Driver") || implementsDriver(w, f.Obj, "DriverContext") {
+			continue // ownership goes to database/sql
+		}
+		info := f.Pkg.TypesInfo
+		var connVar types.Object
+		ast.Inspect(f.Decl.Body, func(x ast.Node) bool {
+			if as, ok := x.(*ast.AssignStmt); ok && len(as.Rhs) == 1 && len(as.Lhs) >= 1 {
+				if c, ok := ast.Unparen(as.Rhs[0]).(*ast.CallExpr); ok && isConnect(core.Callee(info, c)) {
+					connVar = core.ObjOf(info, as.Lhs[0])
+				}
+			}
+			return true
+		})
+		if connVar == nil {
+			continue
+		}
+		stored := false
+		ast.Inspect(f.Decl.Body, func(x ast.Node) bool {
+			if kv, ok := x.(*ast.KeyValueExpr); ok && isObj(info, kv.Value, connVar) {
+				stored = true
+			}
+			return true
+		})
+		for _, t := range returnedTypes(f) {
+			hasClose := false
+			ms := types.NewMethodSet(types.NewPointer(t))
+			for _, m := range []string{"Close", "CloseForce"} {
+				if ms.Lookup(t.Obj().Pkg(), m) != nil {
+					hasClose = true
+				}
+			}
+			if stored && hasClose {
+				ownedRet[f.Obj] = &acqKind{"*" + t.Obj().Name() + " wrapping a physical connection opened for this request by " + core.ShortKey(f.Obj), "Close"}
+			}
+		}
+	}
+	for round := 0; round < 3; round++ {
+		for _, f := range w.SortedFuncs() {
+			if w.IsTestFile(f.Decl.Pos()) || ownedRet[f.Obj] != nil || f.Decl.Body == nil {
+				continue
+			}
+			info := f.Pkg.TypesInfo
+			// returns the variable that received an owned value
+			ast.Inspect(f.Decl.Body, func(x ast.Node) bool {
+				as, ok := x.(*ast.AssignStmt)
+				if !ok || len(as.Rhs) != 1 || len(as.Lhs) == 0 {
+					return true
+				}
+				c, ok := ast.Unparen(as.Rhs[0]).(*ast.CallExpr)
+				if !ok {
+					return true
+				}
+				k := ownedRet[core.Callee(info, c)]
+				if k == nil {
+					return true
+				}
+				v := core.ObjOf(info, as.Lhs[0])
+				ast.Inspect(f.Decl.Body, func(y ast.Node) bool {
+					if rs, ok := y.(*ast.ReturnStmt); ok {
+						for _, e := range rs.Results {
+							if v != nil && isObj(info, e, v) {
+								ownedRet[f.Obj] = k
+							}
+						}
+					}
+					return true
+				})
+				return true
+			})
+		}
+	}
 	for _, f := range w.SortedFuncs() {
 		if w.IsTestFile(f.Decl.Pos()) || strings.Contains(f.Pkg.PkgPath, "/mock") || strings.HasPrefix(f.Pkg.PkgPath, pUndo+"/builder") {
 			continue
@@ -532,6 +613,9 @@ func c20Release(r *core.Run) {
 				return true
 			}
 			k := acquireKind(core.Callee(info, c))
+			if k == nil {
+				k = ownedRet[core.Callee(info, c)]
+			}
 			if k == nil || len(as.Lhs) == 0 {
 				return true
 			}
@@ -592,7 +676,7 @@ func c20Release(r *core.Run) {
 				if call == av.call {
 					return []flow.Tag{"acq"}
 				}
-				if callee != nil && callee.Name() == av.kind.release && recvObj(pkg.TypesInfo, call) == av.v {
+				if callee != nil && (callee.Name() == av.kind.release || av.kind.release == "Close" && callee.Name() == "CloseForce") && recvObj(pkg.TypesInfo, call) == av.v {
 					return []flow.Tag{"rel", "-ok:acq"}
 				}
 				// ownership handed to a callee that closes that parameter
@@ -620,15 +704,39 @@ func c20Release(r *core.Run) {
 						return true
 					}
 					if lit, ok := ast.Unparen(ds.Call.Fun).(*ast.FuncLit); ok {
+						mentionsRel := false
 						ast.Inspect(lit.Body, func(m ast.Node) bool {
 							if c, ok := m.(*ast.CallExpr); ok {
 								if cf := core.Callee(info, c); cf != nil && cf.Name() == av.kind.release && recvObj(info, c) == av.v {
-									// accepted when the defer is registered right after the acquisition succeeded
-									leak = ""
+									mentionsRel = true
 								}
 							}
 							return true
 						})
+						if !mentionsRel {
+							return true
+						}
+						// a deferred closure that releases under a nil test (`if rows != nil { rows.Close() }`): every
+						// exit of the closure has released, or knows the variable to be nil
+						lres := sp.AnalyzeLit(f.Pkg, lit)
+						allPaths := len(lres.Exits) > 0
+						var someUse *ast.Ident
+						ast.Inspect(lit.Body, func(m ast.Node) bool {
+							if id, ok := m.(*ast.Ident); ok && someUse == nil && info.Uses[id] == av.v {
+								someUse = id
+							}
+							return true
+						})
+						for _, lex := range lres.Exits {
+							if !lex.St.Has("rel") && !(someUse != nil && lex.St.ExprNil(info, someUse) == 1) {
+								allPaths = false
+							}
+						}
+						if allPaths {
+							leak = ""
+						} else {
+							leak += " (the deferred closure does not release it on each of its own paths)"
+						}
 					}
 					return true
 				})
